@@ -52,7 +52,6 @@ class IrToPythonCompiler:
     def __init__(self, output_file, reporter):
         self.output_file = output_file
         self.reporter = reporter
-        self.stack_size = 0
         self._level = 0
 
     def print(self, level, *args):
@@ -294,10 +293,11 @@ class IrToPythonCompiler:
 
     def generate_function(self, ir_function: ir.SubRoutine):
         """Generate a function to python code"""
-        self.stack_size = 0
         name = ir_function.name
         args = ",".join(a.name for a in ir_function.arguments)
         with self.func_def(f"{name}({args}):"):
+            # Remember the stack depth, to drop our frame upon return:
+            self.emit("_irpy_stack_size = len(rt.stack)")
             # TODO: enable shape style:
             # try:
             #     # TODO: remove this to enable shape style:
@@ -385,8 +385,7 @@ class IrToPythonCompiler:
             self.emit(f"{phi_names} = {value_names}")
 
     def reset_stack(self):
-        self.emit(f"rt.free({self.stack_size})")
-        self.stack_size = 0
+        self.emit("rt.free(len(rt.stack) - _irpy_stack_size)")
 
     def emit_jump(self, block, target: ir.Block):
         """Perform a jump in block mode."""
@@ -403,7 +402,6 @@ class IrToPythonCompiler:
             self.gen_jump(ins, block)
         elif isinstance(ins, ir.Alloc):
             self.emit(f"{ins.name} = rt.alloca({ins.amount})")
-            self.stack_size += ins.amount
         elif isinstance(ins, ir.AddressOf):
             src = self.fetch_value(ins.src)
             self.emit(f"{ins.name} = {src}[0]")
